@@ -68,3 +68,11 @@ Theorem C06_hook_words : forall u p,
   sh_words (str "hook " ++ shlex_quote u ++ [32] ++ shlex_quote p) = Some [str "hook"; u; p].
 Proof. exact hook_words. Qed.
 Print Assumptions C06_hook_words.
+
+(* The model of path_to_filesystem (Model/Path.v) is tied to the code statement by statement: the skeleton
+   regenerated from radicale/pathutils.py on every run is the one the model was written from (a fold or rewrite of a
+   component after the safety check, a dropped check or another join breaks this). *)
+Require RV.Gen.PtfGen RV.Proofs.GenEqPtf.
+Theorem C06_ptf_is_the_code : PtfGen.ptf_skeleton = GenEqPtf.ptf_expected.
+Proof. exact GenEqPtf.Gen_ptf_skeleton_eq. Qed.
+Print Assumptions C06_ptf_is_the_code.
